@@ -111,7 +111,7 @@ FromDict(T, cx, j0) ==
       fs   == DcFields(T)
       ifs  == InitFields(T)
       name == DcName(T)
-      ncx  == [NestCx(T, cx) EXCEPT !.levels = ClassLevels(T, cx)]
+      ncx  == [NestCx(T, cx) EXCEPT !.levels = ClassLevels(T, cx), !.nt_dict = EffOpt(T, cx, "namedtuple_as_dict")]
       fcx(f) == [ncx EXCEPT !.fopt = FOpts(f)]
   IN
   IF ifs = <<>> THEN Ok(<<"obj", name, [i \in DOMAIN fs |-> DefaultOf(fs[i])]>>)
@@ -191,7 +191,7 @@ UnpackB(T, cx, j) ==
          ELSE IF it[2] = <<>> THEN Ok(<<"ChainMap", << Dct(<<>>) >> >>)      \* ChainMap() holds one empty map
          ELSE Wrap("ChainMap", Combine([i \in DOMAIN it[2] |-> MapLike("dict", T[2], T[3], cx, it[2][i])]))
     [] T[1] = "ntuple" ->
-         IF cx.nt_dict
+         IF NtAsDict(cx, "deser")
          THEN IF j[1] # "dict" THEN Err("ntdict")
               ELSE LET fs == T[3] IN
                    IF \E i \in DOMAIN fs : ~PairsHas(j[2], S(fs[i][1])) THEN Err("ntmissing")
